@@ -20,5 +20,6 @@ PLAN = {
     "verus": [
         {"template": "recorder.verus.rs", "tier": "quick", "rlimit": 60, "min_functions": 5},
         {"template": "labels.verus.rs", "tier": "quick", "rlimit": 40, "min_functions": 1},
+        {"template": "builder_labels.verus.rs", "tier": "quick", "rlimit": 40, "min_functions": 1},
     ],
 }
